@@ -1261,7 +1261,7 @@ impl Scenario for C08 {
         if run % sweep_every == 0 {
             let l = match tier {
                 Tier::Quick => rng.range(2, 12),
-                Tier::Thorough => rng.range(2, 14),
+                Tier::Thorough => if rng.chance(1, 8) { rng.range(15, 16) } else { rng.range(2, 14) },
             };
             gen_acc_trace(rng, &o, Some(l))
         } else if run % 197 == 1 {
@@ -1277,7 +1277,7 @@ impl Scenario for C08 {
         shrink_acc(t)
     }
     fn rule() -> &'static str {
-        "one case = one history: a byte stream of zero-terminated segments (valid / wrong-type / corrupt / empty frames, garbage; every segment and the tail fit N) cut into feed calls by a seeded chunker (whole, 1-byte, uniform, geometric, around sentinels, fill-to-N-1-before-sentinel, optionally with empty calls), or — for streams up to 12 (thorough: 14) bytes — every one of the 2^(len-1) compositions. distinct_nontrivial counts distinct signatures (N, owned/borrowed, per result: variant, number of calls the segment spanned (capped at 4), sentinel first/last in its window, near-capacity class) of histories in which at least one segment spans two or more calls or one chunk holds two or more sentinels."
+        "one case = one history: a byte stream of zero-terminated segments (valid / wrong-type / corrupt / empty frames, garbage; every segment and the tail fit N) cut into feed calls by a seeded chunker (whole, 1-byte, uniform, geometric, around sentinels, fill-to-N-1-before-sentinel, optionally with empty calls), or — for streams up to 12 (thorough: 16) bytes — every one of the 2^(len-1) compositions. distinct_nontrivial counts distinct signatures (N, owned/borrowed, per result: variant, number of calls the segment spanned (capped at 4), sentinel first/last in its window, near-capacity class) of histories in which at least one segment spans two or more calls or one chunk holds two or more sentinels."
     }
     fn real_components() -> &'static [&'static str] {
         &[
@@ -1665,7 +1665,7 @@ impl Scenario for C09 {
         if run % sweep_every == 0 {
             let l = match tier {
                 Tier::Quick => rng.range(2, 12),
-                Tier::Thorough => rng.range(2, 14),
+                Tier::Thorough => if rng.chance(1, 8) { rng.range(15, 16) } else { rng.range(2, 14) },
             };
             gen_acc_trace(rng, &o, Some(l))
         } else if run % 197 == 1 {
@@ -1681,7 +1681,7 @@ impl Scenario for C09 {
         shrink_acc(t)
     }
     fn rule() -> &'static str {
-        "one case = one history: a byte stream of valid frames interleaved with over-long frames, over-long garbage, fitting garbage, corrupt and empty frames and an optional (possibly over-long) unterminated tail, cut into feed calls by a seeded chunker, or every composition for streams up to 12 (thorough: 14) bytes; capacities include frame-1, frame, frame+1 and 1..3. distinct_nontrivial counts distinct signatures (N, per segment: class {overflowed with k reports, delivered over k calls, rejected over k calls}, chunk count class) of histories in which at least one overflow fired and a well-formed frame was delivered directly after an overflowed segment."
+        "one case = one history: a byte stream of valid frames interleaved with over-long frames, over-long garbage, fitting garbage, corrupt and empty frames and an optional (possibly over-long) unterminated tail, cut into feed calls by a seeded chunker, or every composition for streams up to 12 (thorough: 16) bytes; capacities include frame-1, frame, frame+1 and 1..3. distinct_nontrivial counts distinct signatures (N, per segment: class {overflowed with k reports, delivered over k calls, rejected over k calls}, chunk count class) of histories in which at least one overflow fired and a well-formed frame was delivered directly after an overflowed segment."
     }
     fn real_components() -> &'static [&'static str] {
         C08::real_components()
